@@ -602,6 +602,72 @@ def stage_targeted(ctx: Ctx):
                 if not ok:
                     ctx.violation('text|targeted|boolop-leading-operands', 'deleting the leading operands of a BoolOp removed (or damaged) text of the operands that stay',
                                   {'before': src, 'after': root.src, 'deleted_operands': k, 'action': act, 'expected': ast.unparse(want)})
+    # (j) after the extents of the enclosing blocks were read, the line comment of a block's last (nested) statement is replaced by a longer / shorter one, added or removed, THEN
+    #     the block is removed / cut / replaced: the result is what the same removal gives on a fresh tree of the commented source
+    for src, cpath, bpaths in [('if x:\n    a = 1  # c\nb = 2\n', 'body[0].body[0]', ['body[0]']), ('def f():\n    if x:\n        a = 1  # c\n    z\nb = 2\n', 'body[0].body[0].body[0]', ['body[0].body[0]', 'body[0]']),
+                               ('class K:\n    def m(self):\n        while q:\n            t  # c\nafter  # d\n', 'body[0].body[0].body[0].body[0]', ['body[0].body[0].body[0]', 'body[0].body[0]', 'body[0]']),
+                               ('try:\n    a\nfinally:\n    b  # c\nd\n', 'body[0].finalbody[0]', ['body[0]'])]:
+        for newc in ('a much longer comment than before', 'x', None, 'é ü'):
+            for bpath in bpaths:
+                for act in ('remove', 'cut', 'replace'):
+                    for tv in (None, (False, False), ('all', 'all')):
+                        kw = {} if tv is None else {'trivia': tv}
+                        root = fst.FST(src, 'exec')
+                        for g_ in root.walk(True):
+                            g_.bloc
+                            g_.loc
+                        eval('root.' + bpath).copy()
+                        try:
+                            eval('root.' + cpath).put_line_comment(newc)
+                        except Exception:
+                            continue
+                        mid = root.src
+                        fresh = fst.FST(mid, 'exec')
+                        outs = []
+                        for t_ in (root, fresh):
+                            try:
+                                b_ = eval('t_.' + bpath, {'t_': t_})
+                                if act == 'remove':
+                                    b_.remove(**kw)
+                                elif act == 'cut':
+                                    b_.cut(**kw)
+                                else:
+                                    b_.replace('zz = 0', **kw)
+                                outs.append(t_.src)
+                            except Exception as e:
+                                outs.append('!' + type(e).__name__)
+                        ctx.tick(('targeted-j', src, newc, bpath, act, repr(tv)), 'op:targeted-comment-then-block-removal')
+                        if outs[0] != outs[1]:
+                            ctx.violation('text|targeted|comment-then-block-removal', 'removing a block after the line comment of its last statement was rewritten does not give what the same removal gives on a fresh tree',
+                                          {'before': src, 'after_comment': mid, 'block': bpath, 'action': act, 'trivia': repr(tv), 'after': outs[0], 'fresh_tree_gives': outs[1]})
+    # (k) the tail of a sequence whose closing bracket is followed on the same line by the separator of the ENCLOSING sequence, edited with non-ASCII code: nothing of the enclosing sequence goes
+    for src, path in [('x = f((a, b), c)\n', 'body[0].value.args[0]'), ('y = [(a, b), c]\n', 'body[0].value.elts[0]'), ('z = f(\n    (a, b), c,\n)\n', 'body[0].value.args[0]'), ('w = {(a, b): c, d: e}\n', 'body[0].value.keys[0]'),
+                      ('v = g([a, b], k=c)\n', 'body[0].value.args[0]'), ("u = ('é', (a, b), c)\n", 'body[0].value.elts[1]')]:
+        for how, code in (('append', "'日本'"), ('append', 'éé'), ('replace-last', "'日本語'"), ('put_slice-last', "'éé', ü"), ('extend', "ü, 'ö'"), ('append', 'x')):
+            root = fst.FST(src, 'exec')
+            node = eval('root.' + path)
+            want = ast.parse(src)
+            wn = eval('want.' + path)
+            new_elts = [e_ for e_ in ast.parse('(' + code + ',)', mode='eval').body.elts]
+            try:
+                if how in ('append', 'extend'):
+                    (node.elts.append if how == 'append' else node.elts.extend)(code)
+                    wn.elts = wn.elts + new_elts
+                elif how == 'replace-last':
+                    node.elts[-1] = code
+                    wn.elts = wn.elts[:-1] + new_elts
+                else:
+                    node.put_slice(code, len(wn.elts) - 1, len(wn.elts), 'elts')
+                    wn.elts = wn.elts[:-1] + new_elts
+            except Exception:
+                continue
+            ctx.tick(('targeted-k', src, how, code), 'op:targeted-tail-before-outer-separator')
+            try:
+                ok = ast.dump(ast.parse(root.src)) == ast.dump(ast.parse(ast.unparse(want)))
+            except SyntaxError:
+                ok = False
+            if not ok:
+                ctx.violation('text|targeted|tail-before-outer-separator', 'editing the tail of a sequence damaged the enclosing sequence (its separator / elements)', {'before': src, 'after': root.src, 'how': how, 'code': code, 'expected': ast.unparse(want)})
     # (c) docstr=False / 'strict': moving or re-indenting statements never touches the inside of multi-line strings that are not docstrings
     strs = lambda t: sorted(n.value for n in ast.walk(t) if isinstance(n, ast.Constant) and isinstance(n.value, str))
     progs_c = ['if a:\n    pass\nelif b:\n    x = 1\n    \'\'\'not a docstring\ncontinued at col 0\n      and more\'\'\'\n    y = 2\n',
